@@ -21,7 +21,6 @@ import (
 	"encoding/json"
 	"fmt"
 	"math/big"
-	"reflect"
 	"sort"
 	"strconv"
 	"strings"
@@ -30,12 +29,15 @@ import (
 	"ariga.io/atlas/schemahcl"
 	"ariga.io/atlas/sql/postgres"
 	"ariga.io/atlas/sql/schema"
+	"verifharness/lib/dmodel"
 	"verifharness/rt"
 )
 
 // Case is one replayable case.
 type Case struct {
-	Leg     string    `json:"leg"` // type | schema
+	Leg     string    `json:"leg"`             // type | schema | pool
+	Pool    string    `json:"pool,omitempty"`  // leg pool: dmodel pool model name
+	Edits   []string  `json:"edits,omitempty"` // leg pool: catalogue edit ids applied to it
 	Dialect string    `json:"dialect"`
 	Label   string    `json:"label,omitempty"`
 	Type    *TypeCase `json:"type,omitempty"`   // leg type; for leg schema: the grid type under test (column t0.cx)
@@ -408,10 +410,54 @@ func templateElement(cs *Case) string {
 	return ""
 }
 
+// buildCase returns a fresh graph of the case's schema: from the monitor's own spec, or (leg pool) from a
+// C02 pool model of harness/lib/dmodel, optionally after a recorded walk of catalogue edits.
+func buildCase(cs *Case, k kinds) (*schema.Schema, error) {
+	if cs.Leg != "pool" {
+		return Build(cs.Schema, k)
+	}
+	m := poolModel(cs.Dialect, cs.Pool)
+	if m == nil {
+		return nil, fmt.Errorf("c15: no pool model %q", cs.Pool)
+	}
+	if len(cs.Edits) > 0 {
+		var err error
+		if m, err = dmodel.Resolve(m, cs.Edits); err != nil {
+			return nil, err
+		}
+	}
+	k.add("pool-model")
+	return dmodel.Build(m), nil
+}
+
+var (
+	poolOnce  sync.Once
+	poolCache = map[string]map[string]*dmodel.Model{}
+)
+
+// poolModel returns a private copy of a pool model (the pool is a constant of the library).
+func poolModel(dn, name string) *dmodel.Model {
+	poolOnce.Do(func() {
+		for _, d := range dialectOrder {
+			poolCache[d] = map[string]*dmodel.Model{}
+			for _, m := range dmodel.Pool(dmodel.Dialect(d)) {
+				poolCache[d][m.Name] = m
+			}
+		}
+	})
+	if m := poolCache[dn][name]; m != nil {
+		return m.Clone()
+	}
+	return nil
+}
+
 func schemaLeg1(d *dialect, cs *Case) verdict {
 	k := kinds{}
-	s1, err := Build(cs.Schema, k)
+	s1, err := buildCase(cs, k)
 	if err != nil {
+		if cs.Leg == "pool" {
+			panic(err)
+		}
 		return verdict{ood: "type-rejected-by-atlas"}
 	}
 	for _, t := range s1.Tables {
@@ -481,7 +527,7 @@ func schemaLeg1(d *dialect, cs *Case) verdict {
 			v.detail["path"], v.detail["before"], v.detail["after"] = path, sa, sb
 			v.detail["before_normalised"], v.detail["after_normalised"] = a, b
 			if cs.Type != nil && strings.HasSuffix(path, ".type") {
-				if attr, ok := zeroAttrLost(d, *cs.Type, typeOnly(b)); ok {
+				if attr, ok := zeroAttrLost(d, *cs.Type, b); ok {
 					descKey = fmt.Sprintf("C15|%s|zero-%s", d.name, attr)
 					descWhat = fmt.Sprintf("a zero %q parameter is lost by the HCL round trip: column type %s comes back as %s", attr, a, b)
 				}
@@ -511,7 +557,7 @@ func schemaLeg1(d *dialect, cs *Case) verdict {
 		names = changeNames(ch, 0)
 		diffWhat = fmt.Sprintf("SchemaDiff(s, s') = %v", names)
 	}
-	s3, err3 := Build(cs.Schema, nil)
+	s3, err3 := buildCase(cs, nil)
 	s4, err4 := evalFresh()
 	if err3 != nil || err4 != nil {
 		return verdict{key: fmt.Sprintf("C15|%s|nondeterministic-build", d.name), what: fmt.Sprint(err3, err4), detail: v.detail}
@@ -576,12 +622,14 @@ func lineAt(lines []string, path string) string {
 	return "<absent>"
 }
 
-// typeOnly extracts the type descriptor out of a ".type" descriptor value (identity here; kept for clarity).
-func typeOnly(s string) string { return s }
-
 // errClass reduces an error message to a class: quoted names and numbers removed.
 func errClass(err error) string {
 	s := err.Error()
+	for _, fn := range []string{"strconv.ParseInt", "strconv.ParseUint", "strconv.ParseFloat"} {
+		if strings.Contains(s, fn) {
+			return "default-literal:" + fn
+		}
+	}
 	var b strings.Builder
 	inq := false
 	for _, r := range s {
@@ -732,6 +780,9 @@ func bytesClass(a, b string, err error) string {
 			for _, l := range []string{x, y} {
 				f := strings.Fields(l)
 				if len(f) >= 2 && f[1] == "=" {
+					if f[0] == "start" || f[0] == "increment" {
+						return "identity"
+					}
 					return f[0]
 				}
 			}
@@ -843,7 +894,10 @@ func run(c *rt.Ctx) {
 					cases = append(cases, Case{Leg: "schema", Dialect: dn, Label: "type×" + v.Name, Type: &tc, Schema: typeSchema(d, tc, v)})
 				}
 			} else {
-				pick := []colVariant{vs[0], vs[1+r.IntN(len(vs)-1)]}
+				pick := []colVariant{vs[0]}
+				for n := 0; n < 4; n++ {
+					pick = append(pick, vs[1+r.IntN(len(vs)-1)])
+				}
 				for _, v := range pick {
 					tc := g.TC
 					cases = append(cases, Case{Leg: "schema", Dialect: dn, Label: "type×" + v.Name, Type: &tc, Schema: typeSchema(d, tc, v)})
@@ -871,7 +925,7 @@ func run(c *rt.Ctx) {
 			}
 		} else {
 			// a seeded sample of pairs and one "everything that composes" case.
-			for n := 0; n < 150; n++ {
+			for n := 0; n < 600; n++ {
 				i, j := r.IntN(len(fs)), r.IntN(len(fs))
 				if i == j {
 					continue
@@ -882,7 +936,20 @@ func run(c *rt.Ctx) {
 				}
 			}
 		}
-		extra[dn] = map[string]any{"type_specs_total": nspecs, "grid_types": len(grid), "catalogue_features": len(fs), "catalogue_pairs": npairs}
+		// C02's pool models and seeded walks of catalogue edits over them.
+		npool := 0
+		for pi, m := range dmodel.Pool(dmodel.Dialect(dn)) {
+			cases = append(cases, Case{Leg: "pool", Dialect: dn, Label: "pool:" + m.Name, Pool: m.Name})
+			npool++
+			walks := c.Pick(3, 40)
+			for w := 0; w < walks; w++ {
+				rr := c.Rand(1502, uint64(len(dn)), uint64(pi), uint64(w))
+				ids, _, _ := dmodel.RandomEdits(m, 1+rr.IntN(4), rr)
+				cases = append(cases, Case{Leg: "pool", Dialect: dn, Label: fmt.Sprintf("pool:%s+%d edits", m.Name, len(ids)), Pool: m.Name, Edits: ids})
+				npool++
+			}
+		}
+		extra[dn] = map[string]any{"pool_cases": npool, "type_specs_total": nspecs, "grid_types": len(grid), "catalogue_features": len(fs), "catalogue_pairs": npairs}
 	}
 
 	var mu sync.Mutex
@@ -925,7 +992,7 @@ func run(c *rt.Ctx) {
 			}
 			return
 		}
-		if c.WantSample() && cs.Leg == "schema" && i%97 == 0 {
+		if c.WantSample() && cs.Leg != "type" && i%97 == 0 {
 			c.Sample(map[string]any{"dialect": cs.Dialect, "label": cs.Label, "type": cs.Type, "hcl": trunc(fmt.Sprint(v.detail["hcl"]), 700), "verdict": "held", "rules": v.rules})
 		}
 	})
@@ -948,5 +1015,3 @@ func run(c *rt.Ctx) {
 	extra["normalisation_rules"] = ruleDocs
 	c.Finish("per schema s: s' = EvalHCLBytes(MarshalHCL(s)); DefaultDiff.SchemaDiff(s,s') and (s',s) empty on fresh graphs (DiffNormalized); canonical descriptor (names, Go type + FormatType + every parameter field, enum values, null, default kind+text, key parts with desc/prefix/expr, attrs) equal modulo the listed documented-defaulting rules; MarshalHCL(s') bytes equal; per grid type: FormatType(ParseType(FormatType(t))) == FormatType(t) and Registry.Type(Registry.Convert(t)) describes as t. distinct = distinct (dialect, Go type, FormatType spelling) for type cases and distinct marshalled HCL documents for schema cases; every evaluated case is non-trivial (a schema was marshalled and re-read, or a type formatted and re-parsed)", extra)
 }
-
-var _ = reflect.TypeOf
